@@ -905,7 +905,7 @@ func c3Any(c *Ctx) {
 				return true
 			}
 			nt, ok := types.Unalias(tv.Type).(*types.Named)
-			if !ok || nt.Origin().Obj().Name() != "anyFieldC" || nt.TypeArgs().Len() != 1 {
+			if !ok || TNm(nt.Origin().Obj()) != "anyFieldC" || nt.TypeArgs().Len() != 1 {
 				return true
 			}
 			inst = nt.TypeArgs().At(0)
@@ -1386,11 +1386,11 @@ func c3Slices(c *Ctx) {
 				continue
 			}
 			name := FStr(fn)
-			if on := rn.Obj().Name(); on == "objects" || on == "objectValues" {
+			if on := TNm(rn.Obj()); on == "objects" || on == "objectValues" {
 				c3ObjectElems(c, fn, on == "objectValues")
 				continue
 			}
-			if why, ok := exempt[rn.Obj().Name()]; ok {
+			if why, ok := exempt[TNm(rn.Obj())]; ok {
 				c.Triv("R3.4", name, "exempt", fn.Pos(), "decided elsewhere: %s", why)
 				continue
 			}
